@@ -41,7 +41,12 @@ func targetSet(pc string) map[string]bool {
 	return m
 }
 
+// After a trace with Expect == "sleeping-waiter" (a counterexample of the hypothetical checkHasPeers variant): every
+// caller that ended the trace inside the select of next() with a live context must, the pool having an active peer and
+// the harness doing nothing else, wake up and return that peer.
 type fineResult struct {
+	asleep     []string // callers that stayed in the select (proved parked) although a peer was active
+	woke       int
 	executed   int
 	mismatch   string
 	deadlocked bool   // the real code is deadlocked at the end (proved)
@@ -191,6 +196,53 @@ func replayFine(rep *vh.Report, sc Scenario) fineResult {
 		}
 		res.executed++
 		prevPc = st.Pc
+	}
+	if sc.Expect == "sleeping-waiter" {
+		for _, th := range sortedKeys(prevPc) {
+			if prevPc[th] != "nx_wait" {
+				continue
+			}
+			pre, _ := rp.snapshot()
+			if pre.Ac == 0 {
+				res.mismatch = "sleeping-waiter scenario: no active peer in the real pool at the end of the trace"
+				return res
+			}
+			// the waiter is in its select; with a closed channel it comes straight back to tryGet
+			r := s.waitParked(th, map[string]bool{"tryGet.enter": true}, wakeWatchdog)
+			if r == "tryGet.enter" || r == resDone {
+				if r != resDone {
+					r = s.runUntil(th, map[string]bool{"next.wait": true}, watchdog)
+				}
+				if g := s.get(th); r == resDone && g != nil && g.ret != none {
+					res.woke++
+					continue
+				}
+				res.mismatch = fmt.Sprintf("sleeping-waiter scenario: %s woke up but did not return a peer (%s)", th, r)
+				return res
+			}
+			// not woken: prove that it is parked in the select of next() (two dumps), nothing else running
+			parked := false
+			d1 := dumpGoroutines()
+			time.Sleep(500 * time.Millisecond)
+			d2 := dumpGoroutines()
+			for _, id := range s.goidsOf(th) {
+				g1, ok1 := d1[id]
+				g2, ok2 := d2[id]
+				if ok1 && ok2 && strings.HasPrefix(g1.State, "select") && strings.HasPrefix(g2.State, "select") &&
+					strings.Contains(g2.Raw, "peers.(*pool).next.func1") {
+					parked = true
+					res.proof += fmt.Sprintf("goroutine %d (%s) [%s] parked in the select of pool.next; activeCount=%d, hasPeer=%v\n", id, th, g2.State, pre.Ac, pre.Hp)
+				}
+			}
+			if parked {
+				res.asleep = append(res.asleep, th)
+			} else {
+				res.mismatch = fmt.Sprintf("sleeping-waiter scenario: %s did not wake within %s but was not found parked in next()", th, wakeWatchdog)
+				return res
+			}
+		}
+		res.completed = len(res.asleep) == 0
+		return res
 	}
 	if sc.Expect != "deadlock" {
 		return res
